@@ -15,7 +15,9 @@ def all_cases(rng, tier, per):
             continue
         try:
             mod = importlib.import_module(m.group(1))
-            cs = [c for c in mod.generate(rng, "quick") if len(c) < 6000]
+            # public API only: hook-level ops (h.*) may deliberately violate internal preconditions
+            # (debug_assert!), where debug and release legitimately differ
+            cs = [c for c in mod.generate(rng, "quick") if len(c) < 6000 and not c.startswith("h.")]
         except Exception:
             continue
         rng.shuffle(cs)
